@@ -2,3 +2,4 @@
 
 pub mod docmodel;
 pub mod lspsched;
+pub mod c24model;
